@@ -93,6 +93,10 @@ func c16Batch(r *vc.Run, bi int, interp bool, n int) {
 		env.dbs[k] = db
 		driver := map[string]string{"at": "seata-at-mysql", "xa": "seata-xa-mysql", "bare": "mysql"}[k]
 		specs = append(specs, world.DBSpec{Name: k, Driver: driver, DSN: db.DSN("app", extra), MaxOpen: 4, Class: "prog"})
+		if interp {
+			// the same database opened a second time by the same process with another option of the driver
+			specs = append(specs, world.DBSpec{Name: k + "2", Driver: driver, DSN: db.DSN("app", extra+"&clientFoundRows=true"), MaxOpen: 2, Class: "prog"})
+		}
 	}
 	ch, err := w.StartClient(env.name, r.Tier == "thorough", world.InitArg{DBs: specs}, nil)
 	if err != nil {
@@ -144,6 +148,7 @@ func c16Batch(r *vc.Run, bi int, interp bool, n int) {
 		}
 	}
 	if interp {
+		c16SecondHandles(r, env, rnd, bi)
 		nm := 30
 		if r.Tier == "thorough" {
 			nm = 200
@@ -358,6 +363,42 @@ func c16Mixed(r *vc.Run, env *c16Env, rnd *vc.Rand, name string) {
 	}
 }
 
+// c16SecondHandles: the process has opened every database a second time with clientFoundRows=true. Programs of
+// autocommit statements, among them UPDATEs that leave a matched row as it is (the option changes their affected
+// count), run through the second handles outside any global transaction: the proxies' second handles must behave like
+// the bare driver's second handle.
+func c16SecondHandles(r *vc.Run, env *c16Env, rnd *vc.Rand, bi int) {
+	n := 12
+	if r.Tier == "thorough" {
+		n = 60
+	}
+	for i := 0; i < n && env.ch.Alive(); i++ {
+		p := c16Gen(rnd, fmt.Sprintf("h%d_%04d", bi, i), 0, false)
+		p.LoseAfterDML, p.KillAt = 0, -1
+		t := p.Tables[0]
+		for k := 0; k < 2; k++ {
+			row := t.Rows[rnd.Intn(len(t.Rows))]
+			w, wargs := pkWhere(t, row, true)
+			vc0 := t.Def.Cols[t.valueCols()[0]].Name
+			p.Steps = append(p.Steps, gtxStep{Op: "exec", DB: "X", SQL: fmt.Sprintf("update %s set %s = %s where %s", t.Name, vc0, vc0, w), Args: wargs})
+		}
+		p.Feat["dsn"] = "second-handle(clientFoundRows)"
+		p.Feat["kinds"] = strings.TrimPrefix(p.Feat["kinds"]+"+update-same-value", "+")
+		runs := map[string]*c16RunResult{}
+		c16Install(env, p)
+		for _, k := range []string{"bare2", "at2", "xa2"} {
+			runs[k] = c16Run(env, p, k)
+		}
+		c16Drop(env, p)
+		if !env.ch.Alive() {
+			return
+		}
+		for _, k := range []string{"at2", "xa2"} {
+			c16Judge(r, env, p, k, runs[k], runs["bare2"])
+		}
+	}
+}
+
 type c16RunResult struct {
 	Res      scopeResult
 	CallErr  error
@@ -409,7 +450,7 @@ func c16Drop(env *c16Env, p *c16Prog) {
 
 // c16Run executes p with alias X bound to database k and collects the observations.
 func c16Run(env *c16Env, p *c16Prog, k string) *c16RunResult {
-	db := env.dbs[k]
+	db := env.dbs[strings.TrimSuffix(k, "2")] // "at2" ...: a second handle on the same database
 	out := &c16RunResult{}
 	start := env.w.Clock.Now()
 	bind := func(steps []gtxStep) []gtxStep {
